@@ -974,7 +974,11 @@ impl Finalize for Node {
                 o.model_finalized = true;
                 let (fc, fa, bif, dr) = (o.fin_count, o.fin_allowed, o.born_in_finalizer, o.dropped);
                 if fc > fa {
-                    w.violation(&["C05"], "finalize-twice", "finalize-twice".into(), format!("obj{} finalized {} times (allowed {})", oid, fc, fa), false);
+                    // C06: "a resurrected object that later becomes unreachable again is reclaimed without
+                    // a second finalization"
+                    let res = w.objs[oid as usize].resurrected;
+                    let props: &[&str] = if res { &["C05", "C06"] } else { &["C05"] };
+                    w.violation(props, "finalize-twice", "finalize-twice".into(), format!("obj{} finalized {} times (allowed {})", oid, fc, fa), false);
                 }
                 if bif {
                     w.violation(&["C05"], "finalize-born-in-finalizer", "finalize-born-in-finalizer".into(), format!("obj{} was created inside a finalizer but was finalized", oid), false);
